@@ -390,6 +390,31 @@ func cmdMachine(args []string) {
 		fmt.Fprintln(os.Stderr, "not found")
 		os.Exit(2)
 	}
+	show := func(m *dtab.Machine, where string) {
+		fmt.Printf("%s params %v state %v reads %v unsupported %v\n", where, m.Params, m.State, m.Reads, m.Unsupported)
+		for i, pa := range m.Paths {
+			var cs []string
+			for _, c := range pa.Conds {
+				cs = append(cs, sym.String(c))
+			}
+			fmt.Printf("  path %d: if %s\n", i, strings.Join(cs, " && "))
+			var ks []string
+			for k := range pa.Updates {
+				ks = append(ks, k)
+			}
+			sort.Strings(ks)
+			for _, k := range ks {
+				fmt.Printf("      %s := %s\n", k, sym.String(pa.Updates[k]))
+			}
+			for _, r := range pa.Ret {
+				fmt.Printf("      return %s\n", sym.String(r))
+			}
+		}
+	}
+	if len(args) > 3 && args[3] == "--decl" {
+		show(dtab.FromFuncDecl(fi.Pkg.TypesInfo, fi.Decl), "function")
+		return
+	}
 	ast.Inspect(fi.Decl.Body, func(n ast.Node) bool {
 		fl, ok := n.(*ast.FuncLit)
 		if !ok {
